@@ -35,12 +35,15 @@ class C15(CheckDef):
         'quick': [('%s;%s/%s;%s/%s' % ((AG,) * 5), {'wrap': 0, 'mk': 0}, 1000, 'random'), ('%s;%s/%s;%s' % ((LS,) * 4), {'wrap': 1, 'mk': 1}, 500, 'random'),
                   ('%s;%s/%s;%s' % ((LS,) * 4), {'wrap': 2, 'mk': 0}, 400, 'random'), ('%s;%s/%s;%s/0;0' % ((LS,) * 4), {'wrap': 3, 'mk': 3}, 600, 'random'),
                   ('%s;%s/%s;%s/0;0' % ((LS,) * 4), {'wrap': 3, 'mk': 2}, 400, 'random'), ('0;0/0;0', {'wrap': 4, 'mk': 3}, 200, 'random'),
-                  ('401;402/401;412', {'wrap': 0, 'mk': 0}, 4000, 'pb2'), ('101;0/202;0', {'wrap': 3, 'mk': 3}, 4000, 'pb2'), ('301/302/0', {'wrap': 0, 'mk': 1}, 4000, 'pb1')],
+                  ('401;402/401;412', {'wrap': 0, 'mk': 0}, 4000, 'pb2'), ('101;0/202;0', {'wrap': 3, 'mk': 3}, 4000, 'pb2'), ('301/302/0', {'wrap': 0, 'mk': 1}, 4000, 'pb1'),
+                  # atomic_guarded over a trivially copyable type whose == is not bytewise (monitor only: no payload windows)
+                  ('%s;%s/%s;%s' % ((AG,) * 4), {'wrap': 5, 'mk': 0, 'notrace': 1}, 400, 'random')],
         'thorough': [('%s;%s/%s;%s/%s' % ((AG,) * 5), {'wrap': 0, 'mk': 0}, 25000, 'random'), ('%s;%s/%s;%s' % ((LS,) * 4), {'wrap': 1, 'mk': 1}, 10000, 'random'),
                      ('%s;%s/%s;%s' % ((LS,) * 4), {'wrap': 2, 'mk': 0}, 8000, 'random'), ('%s;%s/%s;%s/0;0' % ((LS,) * 4), {'wrap': 3, 'mk': 3}, 12000, 'random'),
                      ('%s;%s/%s;%s/0;0' % ((LS,) * 4), {'wrap': 3, 'mk': 2}, 8000, 'random'), ('0;0/0;0', {'wrap': 4, 'mk': 3}, 2000, 'random'),
                      ('401;402/401;412', {'wrap': 0, 'mk': 0}, 300000, 'pb2'), ('101;0/202;0', {'wrap': 3, 'mk': 3}, 300000, 'pb2'),
-                     ('301/302/0', {'wrap': 0, 'mk': 1}, 300000, 'pb2'), ('%s;%s;%s/%s;%s;%s/%s;%s' % ((AG,) * 8), {'wrap': 0, 'mk': 3}, 25000, 'random')],
+                     ('301/302/0', {'wrap': 0, 'mk': 1}, 300000, 'pb2'), ('%s;%s;%s/%s;%s;%s/%s;%s' % ((AG,) * 8), {'wrap': 0, 'mk': 3}, 25000, 'random'),
+                     ('%s;%s/%s;%s/%s' % ((AG,) * 5), {'wrap': 5, 'mk': 0, 'notrace': 1}, 8000, 'random')],
     }
     assumptions = ['bounded: values 0..2, 2-3 threads', 'payload = harness Reg: accesses are observable two-step windows when they involve the wrapped instance',
                    'deferred_guarded offers only load among these operations (its modifications are C06)']
